@@ -1,298 +1,419 @@
-"""C14 hunt (unmodified tree): Boolean-algebra laws of & | ~ on specifiers (== of results) and of & |
-on markers (evaluate() of both sides in concrete environments; `a & b` / `a | b` also against packaging's
-evaluation of "(a) and (b)" / "(a) or (b)").
+"""C14 hunt (third round): Boolean-algebra laws of the operators on the UNMODIFIED tree.
 
-Run: cd /tmp/wt/C14g && PYTHONPATH=/tmp/wt/C14g/src /venv/bin/python hunt_C14.py [seed] [scale]
+Run:  cd /tmp/wt/C14i && PYTHONPATH=/tmp/wt/C14i/src /venv/bin/python hunt_C14.py [N_random] [N_dense]
 
-Prints every violation found (none were found on the unmodified tree) and the number of cases run.
-The known families are kept out of the generators: final-release environments only, no in/not in on the
-version variables, no `<X.postN`, no ===, no +local, no pre-release-only ranges, no ordering operators
-on plain strings, no deep nesting (a per-case alarm skips the exponential cases).
+Sections
+  1. borderline findings (text splicing in MarkerExpression._get_specifier); both use an
+     operand that is not a version, so they sit next to known families (13)/(4) and are
+     reported as borderline, not as new in-quantifier violations;
+  2. exhaustive specifier laws (== on the returned objects, plus hash agreement) over a pool
+     of odd version shapes (epochs, dev/pre/post, 1-5 segments, wildcards of several depths,
+     `~=` with 2-4 segments, `||` unions, AnySpecifier / RangeSpecifier() / EmptySpecifier);
+  3. marker laws over constructor-built / unnormalised objects (MultiMarker(), MarkerUnion(x),
+     EqualityMarkerUnion / InequalityMultiMarker with 0, 1, 2 values, reversed atoms,
+     from_pkg_marker with the dotted legacy variable names, Any / Empty);
+  4. random marker fuzzer with rich atoms (literal on the left, wildcards, ~=, trailing
+     zeros, python_version x python_full_version, extra / extras / dependency_groups with
+     name normalisation, `in` / `not in` / reversed `in` on string variables,
+     implementation_version, platform_release) - laws judged by evaluating both sides on a
+     grid of final-release environments, `a & b` / `a | b` also against packaging;
+  5. dense fuzzer on one string variable with a tiny value universe (hits the
+     EqualityMarkerUnion / InequalityMultiMarker / GenericSpecifier branches the test-suite
+     never reaches).
+No section printed a violation on the unmodified tree (see the totals printed at the end).
 """
 
 from __future__ import annotations
 
+import itertools
 import random
 import signal
 import sys
 
 from packaging.markers import Marker
-from packaging.version import Version
+from packaging.specifiers import SpecifierSet
 
-from dep_logic.markers import parse_marker as PM
+from dep_logic.markers import (
+    AnyMarker,
+    EmptyMarker,
+    MarkerExpression,
+    MarkerUnion,
+    MultiMarker,
+    from_pkg_marker,
+)
+from dep_logic.markers import parse_marker as P
+from dep_logic.markers.single import EqualityMarkerUnion, InequalityMultiMarker
 from dep_logic.specifiers import (
     AnySpecifier,
     EmptySpecifier,
     RangeSpecifier,
-    UnionSpecifier,
-    parse_version_specifier as PS,
+    from_specifierset,
 )
+from dep_logic.specifiers import parse_version_specifier as S
+from dep_logic.utils import OrderedSet
 
-seed = int(sys.argv[1]) if len(sys.argv) > 1 else 2024
-scale = float(sys.argv[2]) if len(sys.argv) > 2 else 1.0
-rnd = random.Random(seed)
-violations: list[str] = []
+N_RANDOM = int(sys.argv[1]) if len(sys.argv) > 1 else 400
+N_DENSE = int(sys.argv[2]) if len(sys.argv) > 2 else 600
+total = bad = 0
 
 
-class Slow(BaseException):
+class TimeOut(Exception):
     pass
 
 
 def _alarm(*_):
-    raise Slow()
+    raise TimeOut()
 
 
 signal.signal(signal.SIGALRM, _alarm)
 
 
-def report(msg: str) -> None:
-    if msg not in violations:
-        violations.append(msg)
-        print("VIOLATION:", msg)
+def ev(m, env):
+    try:
+        return m.evaluate(env)
+    except Exception as e:  # noqa: BLE001
+        return "EXC:" + type(e).__name__
 
 
-# --------------------------------------------------------------------------- specifiers
-def rand_version() -> str:
-    epoch = rnd.choice(["", "", "", "1!", "2!"])
-    rel = ".".join(str(rnd.choice([0, 0, 1, 2, 3, 10])) for _ in range(rnd.choice([1, 2, 2, 3, 3, 4, 5])))
-    suffix = rnd.choice(["", "", "", "", "a1", "b2", "rc1", ".post1", ".dev1", "a1.dev1", ".post1.dev2", "rc2.post3"])
-    return epoch + rel + suffix
+def differ(lhs, rhs, envs):
+    for env in envs:
+        x, y = ev(lhs, env), ev(rhs, env)
+        if x != y:
+            return env, x, y
+    return None
 
 
-def spec_atom() -> str:
-    k = rnd.random()
-    if k < 0.55:
-        op = rnd.choice([">", ">=", "<", "<=", "==", "!="])
-        v = rand_version()
-        while op == "<" and "post" in v:  # known family 3
-            v = rand_version()
-        return op + v
-    v = rand_version()
-    stable = str(Version(v).epoch) + "!" + ".".join(map(str, Version(v).release)) if Version(v).epoch else ".".join(map(str, Version(v).release))
-    if k < 0.75:
-        return rnd.choice(["==", "!="]) + stable + ".*"
-    if k < 0.9:
-        if len(Version(v).release) < 2:
-            v = stable = stable + ".0"
-        return "~=" + rnd.choice([v, stable])
-    return ""
+def marker_laws(a, b, c):
+    return {
+        "comm&": (lambda: a & b, lambda: b & a),
+        "comm|": (lambda: a | b, lambda: b | a),
+        "assoc&": (lambda: (a & b) & c, lambda: a & (b & c)),
+        "assoc|": (lambda: (a | b) | c, lambda: a | (b | c)),
+        "idem&": (lambda: a & a, lambda: a),
+        "idem|": (lambda: a | a, lambda: a),
+        "absorb&|": (lambda: a & (a | b), lambda: a),
+        "absorb|&": (lambda: a | (a & b), lambda: a),
+        "dist&|": (lambda: a & (b | c), lambda: (a & b) | (a & c)),
+        "dist|&": (lambda: a | (b & c), lambda: (a | b) & (a | c)),
+    }
 
 
-def rand_spec():
-    k = rnd.random()
-    if k < 0.03:
-        return AnySpecifier()
-    if k < 0.06:
-        return EmptySpecifier()
-    if k < 0.08:
-        return RangeSpecifier()
-    parts = []
-    for _ in range(rnd.choice([1, 1, 1, 2, 2, 3])):
-        parts.append(",".join(a for a in (spec_atom() for _ in range(rnd.choice([1, 1, 2, 3]))) if a))
-    r = PS("||".join(parts))
-    if rnd.random() < 0.2:
-        r = ~r
-    return r
-
-
-def spec_laws(n: int) -> int:
-    def eq(law, left, right, *inp):
-        if not (left == right and right == left and hash(left) == hash(right)):
-            report(f"specifier {law}: inputs {[str(i) for i in inp]}: {left!r} != {right!r}")
-
-    for _ in range(n):
-        a, b, c = rand_spec(), rand_spec(), rand_spec()
+def check_marker_triple(a, b, c, envs, label):
+    global total, bad
+    for name, (f, g) in marker_laws(a, b, c).items():
+        total += 1
         try:
-            eq("a&b == b&a", a & b, b & a, a, b)
-            eq("a|b == b|a", a | b, b | a, a, b)
-            eq("(a&b)&c == a&(b&c)", (a & b) & c, a & (b & c), a, b, c)
-            eq("(a|b)|c == a|(b|c)", (a | b) | c, a | (b | c), a, b, c)
-            eq("a&a == a", a & a, a, a)
-            eq("a|a == a", a | a, a, a)
-            eq("a&(a|b) == a", a & (a | b), a, a, b)
-            eq("a|(a&b) == a", a | (a & b), a, a, b)
-            eq("a&(b|c) == (a&b)|(a&c)", a & (b | c), (a & b) | (a & c), a, b, c)
-            eq("a|(b&c) == (a|b)&(a|c)", a | (b & c), (a | b) & (a | c), a, b, c)
-            eq("~~a == a", ~~a, a, a)
-            eq("~(a&b) == ~a|~b", ~(a & b), ~a | ~b, a, b)
-            eq("~(a|b) == ~a&~b", ~(a | b), ~a & ~b, a, b)
-            if not (a & ~a).is_empty():
-                report(f"specifier a&~a not empty: {a!r} -> {(a & ~a)!r}")
-            if not (a | ~a).is_any():
-                report(f"specifier a|~a not universal: {a!r} -> {(a | ~a)!r}")
-            for r in (a & b, a | b, ~a):
-                if isinstance(r, UnionSpecifier):
-                    for p, q in zip(r.ranges, r.ranges[1:]):
-                        if not (p.is_strictly_lower(q) and not p.is_adjacent_to(q)):
-                            report(f"specifier result not canonical: {a!r}, {b!r} -> {r!r}")
+            lhs, rhs = f(), g()
+        except TimeOut:
+            raise
         except Exception as e:  # noqa: BLE001
-            report(f"specifier exception {type(e).__name__}: {e} on {a!r}, {b!r}, {c!r}")
-    return n
+            bad += 1
+            print(f"VIOLATION {name}: {type(e).__name__}: {e}\n   inputs {label}")
+            continue
+        d = differ(lhs, rhs, envs)
+        if d:
+            bad += 1
+            print(
+                f"VIOLATION {name}\n   inputs {label}\n   library lhs = {lhs} -> {d[1]}\n"
+                f"   library rhs = {rhs} -> {d[2]}\n   env = {d[0]}"
+            )
 
 
-# --------------------------------------------------------------------------- markers
-def q(s: str) -> str:
-    return '"' + s + '"'
+# --------------------------------------------------------------------------- 1
+print("== 1. borderline findings (operand is not a version; next to families 13 / 4) ==")
+env = {"python_version": "3.10", "python_full_version": "3.10.4", "os_name": "posix"}
+a = P('python_version < "empty>"')
+print(
+    'B1  python_version < "empty>": op + value spell the sentinel "<empty>", so its\n'
+    f"    specifier is {a.specifier!r} although the atom evaluates {a.evaluate(env)} "
+    f"(string fallback; packaging says {Marker(str(a)).evaluate(dict(env, extra=''))})."
+)
+b = P('python_version >= "99"')
+c = P('python_version < "99"')
+lhs, rhs = (a & b) & c, a & (b & c)
+print(
+    f"    associativity of & with b = {b}, c = {c}:\n"
+    f"      (a & b) & c = {lhs} -> {ev(lhs, env)}    a & (b & c) = {rhs} -> {ev(rhs, env)}   on {env}\n"
+    f"      direct evaluation of a and b and c -> {a.evaluate(env) and b.evaluate(env) and c.evaluate(env)}\n"
+    f"    a | b = {a | b} -> library {ev(a | b, env)}; direct a.evaluate or b.evaluate -> "
+    f"{a.evaluate(env) or b.evaluate(env)}"
+)
+try:
+    r = P('python_full_version == "=3.8"') | P('python_full_version < "3.0"')
+    print("B2  no exception:", r)
+except Exception as e:  # noqa: BLE001
+    print(
+        'B2  python_full_version == "=3.8" | python_full_version < "3.0" raises '
+        f"{type(e).__name__}: {e}\n    (op + value spell `===3.8`; the `===` guard in "
+        "_has_exact_specifier looks at op only; expected: an unmerged MarkerUnion)"
+    )
+
+# --------------------------------------------------------------------------- 2
+print("== 2. specifier laws, == on returned objects ==")
+texts = [
+    "", "<empty>", ">=1", ">1.0", "<2", "<=2.0.0", "==1.5", "!=1.5", "==1.*", "!=1.*",
+    "==1.5.*", "!=1.5.0.*", "~=1.5", "~=1.5.2", "~=1.5.2.0", ">=1!0", "<1!2", "==1!1.*",
+    "~=1!1.2", ">=1.5rc1", "<1.5.dev3", ">1.5.post2", "<=1.5.0.post2", "==1.5a1",
+    "!=1.5.post1", ">=1.5,<1.6", ">1,<2,!=1.5", "!=1,!=2,!=3", "<1||>=2", "==1||==2||==3",
+    ">=1.5.0.0.0", "<1.5.0.1", ">=0", "<0", ">=0.dev0", "~=0.0", "==0.*", ">=1,<=1",
+    ">=2,<1", "!=1.5.*,!=1.6.*", ">=1.0a1,<1.0", "==1.0.0.0", ">=v1.5", "<=1.5-1",
+]  # fmt: skip
+specs = [S(t) for t in texts]
+specs += [from_specifierset(SpecifierSet(">=1,<3")), RangeSpecifier(), AnySpecifier(), EmptySpecifier()]
 
 
-REFLECT = {"<": ">", "<=": ">=", ">": "<", ">=": "<=", "==": "==", "!=": "!=", "in": "in", "not in": "not in"}
-STR_VARS = {
-    "os_name": ["posix", "nt", "java"],
-    "sys_platform": ["linux", "linux2", "lin", "win32", "darwin", "win", "cygwin", ""],
-    "platform_machine": ["x86_64", "arm64", "aarch64", "AMD64"],
+def spec_eq(name, lhs, rhs, *inp):
+    global total, bad
+    total += 1
+    if not (lhs == rhs and rhs == lhs):
+        bad += 1
+        print(f"VIOLATION {name} {[str(i) for i in inp]}: {lhs!r} != {rhs!r}")
+
+
+for a in specs:
+    spec_eq("idem&", a & a, a, a)
+    spec_eq("idem|", a | a, a, a)
+    spec_eq("involution", ~~a, a, a)
+    total += 2
+    if not (a & ~a).is_empty():
+        bad += 1
+        print(f"VIOLATION a & ~a not empty for {a}: {a & ~a!r}")
+    if not (a | ~a).is_any():
+        bad += 1
+        print(f"VIOLATION a | ~a not universal for {a}: {a | ~a!r}")
+for a, b in itertools.product(specs, repeat=2):
+    spec_eq("comm&", a & b, b & a, a, b)
+    spec_eq("comm|", a | b, b | a, a, b)
+    spec_eq("absorb&|", a & (a | b), a, a, b)
+    spec_eq("absorb|&", a | (a & b), a, a, b)
+    spec_eq("deMorgan&", ~(a & b), ~a | ~b, a, b)
+    spec_eq("deMorgan|", ~(a | b), ~a & ~b, a, b)
+    total += 1
+    if a == b and hash(a) != hash(b):
+        bad += 1
+        print(f"VIOLATION equal objects, different hash: {a!r} {b!r}")
+for a, b, c in itertools.product(specs, repeat=3):
+    spec_eq("assoc&", (a & b) & c, a & (b & c), a, b, c)
+    spec_eq("assoc|", (a | b) | c, a | (b | c), a, b, c)
+    spec_eq("dist&|", a & (b | c), (a & b) | (a & c), a, b, c)
+    spec_eq("dist|&", a | (b & c), (a | b) & (a | c), a, b, c)
+print(f"   {len(specs)} specifiers, running total {total} checks, {bad} violations")
+
+# --------------------------------------------------------------------------- 3
+print("== 3. constructor-built / unnormalised marker objects ==")
+E = MarkerExpression
+pool = [
+    AnyMarker(), EmptyMarker(), P(""), P("<empty>"),
+    MultiMarker(E("os_name", "==", "nt")), MarkerUnion(E("os_name", "==", "nt")),
+    MultiMarker(), MarkerUnion(),
+    MultiMarker(E("os_name", "==", "nt"), AnyMarker()),
+    MarkerUnion(E("os_name", "==", "nt"), EmptyMarker()),
+    MultiMarker(E("os_name", "==", "nt"), E("os_name", "!=", "nt")),
+    MarkerUnion(E("os_name", "==", "nt"), E("os_name", "!=", "nt")),
+    MultiMarker(MarkerUnion(E("os_name", "==", "nt"), E("sys_platform", "==", "linux")), E("python_version", ">=", "3.8")),
+    EqualityMarkerUnion("os_name", OrderedSet(["nt"])),
+    EqualityMarkerUnion("os_name", OrderedSet(["nt", "posix"])),
+    InequalityMultiMarker("os_name", OrderedSet(["nt"])),
+    InequalityMultiMarker("os_name", OrderedSet(["posix", "java"])),
+    EqualityMarkerUnion("os_name", OrderedSet([])),
+    InequalityMultiMarker("os_name", OrderedSet([])),
+    from_pkg_marker(Marker("os.name == 'nt' and python_implementation == 'CPython'")),
+    E("os_name", "==", "nt", True), E("python_version", ">=", "3.8", True),
+    P('python_version >= "3.8"'), P('python_full_version < "3.9.2"'), P('os_name != "nt"'),
+    P('sys_platform == "linux" or os_name == "posix"'), P('extra == "a"'), P('extra != "A"'),
+]  # fmt: skip
+envs3 = [
+    {"os_name": o, "sys_platform": s, "python_version": pv, "python_full_version": pf,
+     "extra": x, "platform_python_implementation": "CPython"}
+    for o in ["nt", "posix", "java"] for s in ["linux", "win32"]
+    for pv, pf in [("3.7", "3.7.9"), ("3.8", "3.8.0"), ("3.9", "3.9.1"), ("3.9", "3.9.2"), ("3.10", "3.10.0")]
+    for x in ["", "a", {"a", "b"}]
+]  # fmt: skip
+for a, b, c in itertools.product(pool, repeat=3):
+    if random.Random(hash((id(a), id(b), id(c)))).random() < 0.25:  # a quarter of 21952 triples
+        check_marker_triple(a, b, c, envs3, [repr(a), repr(b), repr(c)])
+print(f"   running total {total} checks, {bad} violations")
+
+# --------------------------------------------------------------------------- 4
+print(f"== 4. random marker fuzzer, {N_RANDOM} triples ==")
+rnd = random.Random(20260930)
+PYV = ["2.7.18", "3.0.0", "3.1.5", "3.7.0", "3.7.9", "3.8.0", "3.8.1", "3.8.10", "3.9.0",
+       "3.9.2", "3.10.0", "3.10.1", "3.11.0", "3.11.9", "3.12.3", "4.0.0", "4.1.2"]  # fmt: skip
+envs4 = []
+for full in PYV:
+    pv = ".".join(full.split(".")[:2])
+    for osn, sp, ps in [("posix", "linux", "Linux"), ("nt", "win32", "Windows"), ("posix", "darwin", "Darwin"), ("java", "java1.8", "Java")]:
+        for extra in ["", "a", "b-c", {"a", "b-c"}]:
+            for impl in [("cpython", "3.8.1", "CPython"), ("pypy", "7.3.11", "PyPy")]:
+                for rel in ["5.10.0", "6.1", "4.4.0.1"]:
+                    envs4.append({
+                        "python_version": pv, "python_full_version": full, "os_name": osn,
+                        "sys_platform": sp, "platform_system": ps, "extra": extra,
+                        "implementation_name": impl[0], "implementation_version": impl[1],
+                        "platform_python_implementation": impl[2], "platform_release": rel,
+                        "platform_machine": "x86_64", "platform_version": "#1 SMP",
+                        "extras": {"a", "B_c"} if extra else set(),
+                        "dependency_groups": {"dev"} if osn == "nt" else set(),
+                    })  # fmt: skip
+envs4 = random.Random(1).sample(envs4, 220)
+pv_vals = ["3", "3.0", "3.7", "3.8", "3.9", "3.10", "3.11", "4", "4.0", "3.8.0", "3.8.1", "3.10.0", "3.08", "2.7", "3.8.0.0"]
+pfv_vals = ["3", "3.8", "3.8.0", "3.8.1", "3.8.10", "3.9", "3.9.0", "3.9.2", "3.10", "3.10.0", "3.10.1", "3.11", "4", "4.0.0", "3.7.9", "2.7.18", "3.8.0.0", "3.8.1.0", "0!3.8"]
+wild = ["3.*", "3.8.*", "3.10.*", "3.8.0.*", "3.8.1.*", "4.*", "2.*"]
+tilde = ["3.8", "3.8.0", "3.8.1", "3.8.0.0", "3.10", "3.9.2", "3.10.0", "2.7", "3.0", "3.8.1.0"]
+ops = ["<", "<=", ">", ">=", "==", "!="]
+strvars = {
+    "os_name": ["posix", "nt", "java", "os"],
+    "sys_platform": ["linux", "win32", "darwin", "win", "lin", "java1.8"],
+    "platform_system": ["Linux", "Windows", "Darwin", "Java"],
+    "implementation_name": ["cpython", "pypy", "py"],
+    "platform_machine": ["x86_64", "arm64", "x86"],
     "platform_python_implementation": ["CPython", "PyPy"],
-    "platform_version": ["#1 SMP", "10.0.19041", "Darwin Kernel Version 21"],
 }
-PYS = ["2.7.18", "3.0.0", "3.0.1", "3.1.0", "3.7.9", "3.8.0", "3.8.0.1", "3.8.1", "3.8.2", "3.8.10", "3.9.0", "3.9.1", "3.10.0", "3.10.1", "3.11.0", "4.0.0", "4.1.2"]
-PV = ["3", "3.0", "3.8", "3.9", "3.10", "3.8.0", "3.8.1", "3.08", "4", "3.8.0.0", "3.9.0", "2.7", "3.1"]
-PFV = ["3", "3.8", "3.8.0", "3.8.1", "3.8.2", "3.9", "3.9.0", "3.9.1", "3.10", "3.10.0", "3.10.1", "4.0", "3.8.0.0", "3.8.0.1", "3.8.1.0", "3.0", "3.0.1", "3.1", "1!3.8"]
-RELS = ["4.9", "5", "5.0", "5.4", "5.4.0", "5.10", "5.10.0", "5.10.1", "5.11", "5.15.1", "6.0", "6.1.0", "7", "21.6.0", "10", "5.4.0.1"]
-RELLIT = ["5", "5.0", "5.4", "5.4.0", "5.10", "5.10.0", "5.10.1", "5.11", "6", "6.0", "6.1", "10", "5.4.0.0", "5.4.0.1", "7.0"]
-EXTRA = ["a", "b", "c", "a-b", "A_B", "a.b", "B"]
 
 
-def version_atom(name, lits, wild, compat):
+def ver_atom(name):
     r = rnd.random()
-    if r < 0.72:
-        op = rnd.choice([">", ">=", "<", "<=", "==", "!="])
-        v = rnd.choice(lits)
-        if rnd.random() < 0.2:
-            return f"{q(v)} {REFLECT[op]} {name}"
-    elif r < 0.88:
-        op, v = rnd.choice(["==", "!="]), rnd.choice(wild)
-    else:
-        op, v = "~=", rnd.choice(compat)
-    return f"{name} {op} {q(v)}"
+    vals = pv_vals if name == "python_version" else pfv_vals
+    if r < 0.15:
+        return f'{name} {rnd.choice(["==", "!="])} "{rnd.choice(wild)}"'
+    if r < 0.27:
+        return f'{name} ~= "{rnd.choice(tilde)}"'
+    if r < 0.45:
+        return f'"{rnd.choice(vals)}" {rnd.choice(ops)} {name}'
+    return f'{name} {rnd.choice(ops)} "{rnd.choice(vals)}"'
 
 
-def marker_atom(kinds) -> str:
-    kind = rnd.choice(kinds)
-    if kind == "str":
-        name = rnd.choice(list(STR_VARS)) if len(kinds) > 1 else "sys_platform"
-        vals = STR_VARS[name]
-        r = rnd.random()
-        if r < 0.65:
-            a = (name, rnd.choice(["==", "!="]), q(rnd.choice(vals)))
-            return " ".join(a[::-1] if rnd.random() < 0.2 else a)
-        if r < 0.85:
-            return f'{name} {rnd.choice(["in", "not in"])} {q(" ".join(rnd.sample(vals, min(len(vals), rnd.choice([1, 2, 3])))))}'
-        return f'{q(rnd.choice(vals)[: rnd.choice([0, 1, 3, 5])])} {rnd.choice(["in", "not in"])} {name}'
-    if kind == "py":
-        if rnd.random() < 0.5:
-            return version_atom("python_version", PV, ["3.*", "3.8.*", "3.9.*", "3.8.0.*", "4.*", "3.0.*"], ["3.8", "3.9", "3.0", "3.8.0", "3.8.1"])
-        return version_atom("python_full_version", PFV, ["3.*", "3.8.*", "3.9.*", "3.8.0.*", "3.8.1.*", "3.10.*"], ["3.8", "3.9", "3.8.0", "3.8.1", "3.9.0", "3.8.0.0", "3.8.0.1"])
-    if kind == "rel":
-        if rnd.random() < 0.75:
-            return version_atom("platform_release", RELLIT, ["5.*", "5.4.*", "5.10.*", "6.*", "5.4.0.*"], ["5.4", "5.10", "5.4.0", "5.10.0", "6.0", "5.4.0.0"])
-        return f'implementation_version {rnd.choice([">", ">=", "<", "<=", "==", "!="])} {q(rnd.choice(["3.8.0", "3.8.1", "3.9", "7.3.9"]))}'
-    if kind == "extra":
-        a = ("extra", rnd.choice(["==", "!="]), q(rnd.choice(EXTRA)))
-        return " ".join(a[::-1] if rnd.random() < 0.2 else a)
-    if kind == "extras":
-        name, vals = rnd.choice([("extras", EXTRA), ("dependency_groups", ["dev", "test", "Dev", "d_v"])])
-        return f'{q(rnd.choice(vals))} {rnd.choice(["in", "not in"])} {name}'
-    raise AssertionError(kind)
+def str_atom():
+    name = rnd.choice(list(strvars))
+    v = rnd.choice(strvars[name])
+    r = rnd.random()
+    if r < 0.35:
+        return f'{name} == "{v}"'
+    if r < 0.6:
+        return f'{name} != "{v}"'
+    if r < 0.7:
+        return f'"{v}" == {name}'
+    if r < 0.75:
+        return f'"{v}" != {name}'
+    if r < 0.82:
+        return f'"{v}" in {name}'
+    if r < 0.87:
+        return f'"{v}" not in {name}'
+    vs = " ".join(rnd.sample(strvars[name], 2))
+    if r < 0.94:
+        return f'{name} in "{vs}"'
+    return f'{name} not in "{vs}"'
 
 
-def marker_expr(kinds, depth=0) -> str:
-    if depth >= 2 or rnd.random() < 0.42:
-        return marker_atom(kinds)
-    glue = rnd.choice([" and ", " or "])
-    return "(" + glue.join(marker_expr(kinds, depth + 1) for _ in range(rnd.choice([2, 2, 3]))) + ")"
+def extra_atom():
+    r = rnd.random()
+    v = rnd.choice(["a", "A", "b-c", "B_c", "b.c", "d"])
+    if r < 0.35:
+        return f'extra == "{v}"'
+    if r < 0.6:
+        return f'extra != "{v}"'
+    if r < 0.7:
+        return f'"{v}" == extra'
+    if r < 0.8:
+        return f'"{v}" in extras'
+    if r < 0.9:
+        return f'"{v}" not in extras'
+    g = rnd.choice(["dev", "Dev", "test"])
+    return f'"{g}" in dependency_groups' if r < 0.95 else f'"{g}" not in dependency_groups'
 
 
-def make_envs(kinds, lock):
-    envs = []
-    for _ in range(48):
-        e: dict = {}
-        for k, vs in STR_VARS.items():
-            e[k] = rnd.choice(vs + [v[1:4] for v in vs] + ["freebsd13"])
-        full = rnd.choice(PYS)
-        e["python_full_version"] = full
-        e["python_version"] = ".".join(full.split(".")[:2])
-        e["platform_release"] = rnd.choice(RELS)
-        e["implementation_version"] = rnd.choice(["3.8.0", "3.8.1", "3.9.0", "7.3.9", "3.10.0"])
-        if lock:
-            e["extras"] = set(rnd.sample(["a", "b", "a-b", "c"], rnd.choice([0, 1, 2])))
-            e["dependency_groups"] = set(rnd.sample(["dev", "test", "d-v"], rnd.choice([0, 1, 2])))
-        elif rnd.random() < 0.5:
-            e["extra"] = rnd.choice(["", "a", "b", "a-b", "c", "A_B"])
-        else:
-            e["extra"] = set(rnd.sample(["a", "b", "a-b", "c"], rnd.choice([0, 1, 2, 3])))
-        envs.append(e)
-    return envs
+def other_atom():
+    if rnd.random() < 0.5:
+        return f'implementation_version {rnd.choice(ops)} "{rnd.choice(["3.8", "3.8.1", "7.3", "7.3.11", "3.8.1.0"])}"'
+    return f'platform_release {rnd.choice(ops)} "{rnd.choice(["5.10", "5.10.0", "6", "6.1", "4.4.0.1", "4.4"])}"'
 
 
-def marker_laws(n: int, kinds, lock=False) -> tuple[int, int]:
-    ctx = "lock_file" if lock else "metadata"
-    envs = make_envs(kinds, lock)
-    done = slow = 0
-
-    def ev(m, e):
-        return m.evaluate(e, context=ctx)
-
-    def same(law, left, right, *inp):
-        for e in envs:
-            if ev(left, e) != ev(right, e):
-                used = {k: v for k, v in e.items() if any(k in i for i in inp)}
-                report(f"marker {law}: inputs {list(inp)}: {left!r} vs {right!r} differ in {used}")
-                return
-
-    def oracle(op, res, sa, sb):
-        ref = Marker(f"({sa}) {op} ({sb})")
-        for e in envs:
-            if isinstance(e.get("extra"), set):
-                continue  # packaging takes a single extra only
-            if ev(res, e) != ref.evaluate(dict(e), context=ctx):
-                used = {k: v for k, v in e.items() if k in sa or k in sb}
-                report(f"marker ({sa}) {op} ({sb}) -> {res!r}: library {ev(res, e)}, packaging {not ev(res, e)} in {used}")
-                return
-
-    for i in range(n):
-        sa, sb, sc = (marker_expr(kinds) for _ in range(3))
-        signal.alarm(3)
-        try:
-            a, b, c = PM(sa), PM(sb), PM(sc)
-            oracle("and", a & b, sa, sb)
-            oracle("or", a | b, sa, sb)
-            same("a&b ~ b&a", a & b, b & a, sa, sb)
-            same("a|b ~ b|a", a | b, b | a, sa, sb)
-            same("(a&b)&c ~ a&(b&c)", (a & b) & c, a & (b & c), sa, sb, sc)
-            same("(a|b)|c ~ a|(b|c)", (a | b) | c, a | (b | c), sa, sb, sc)
-            same("a&a ~ a", a & a, a, sa)
-            same("a|a ~ a", a | a, a, sa)
-            same("a&(a|b) ~ a", a & (a | b), a, sa, sb)
-            same("a|(a&b) ~ a", a | (a & b), a, sa, sb)
-            same("a&(b|c) ~ (a&b)|(a&c)", a & (b | c), (a & b) | (a & c), sa, sb, sc)
-            same("a|(b&c) ~ (a|b)&(a|c)", a | (b & c), (a | b) & (a | c), sa, sb, sc)
-            for r in (a & b, a | b):
-                same("result ~ parse(str(result))", r, PM(str(r)), sa, sb)
-            done += 1
-        except Slow:
-            slow += 1
-        except Exception as e:  # noqa: BLE001
-            report(f"marker exception {type(e).__name__}: {e} on {sa!r}, {sb!r}, {sc!r}")
-        finally:
-            signal.alarm(0)
-    return done, slow
+def atom4():
+    r = rnd.random()
+    if r < 0.3:
+        return ver_atom("python_version")
+    if r < 0.55:
+        return ver_atom("python_full_version")
+    if r < 0.8:
+        return str_atom()
+    if r < 0.92:
+        return extra_atom()
+    return other_atom()
 
 
-if __name__ == "__main__":
-    total = spec_laws(int(20000 * scale))
-    print(f"specifier triples checked: {total}")
-    plan = [
-        ("one string variable (grouped atoms, in/not in both ways)", ["str"], False, 1500),
-        ("python_version/python_full_version", ["py"], False, 1500),
-        ("platform_release/implementation_version", ["rel"], False, 800),
-        ("extra (single and several values)", ["extra"], False, 800),
-        ("all variables mixed", ["str", "py", "py", "rel", "extra"], False, 400),
-        ("lock_file: extras/dependency_groups + others", ["extras", "extras", "str", "py"], True, 300),
-    ]
-    for title, kinds, lock, n in plan:
-        done, slow = marker_laws(int(n * scale), kinds, lock)
-        total += done
-        print(f"marker triples checked, {title}: {done} (skipped as too slow: {slow})")
-    if violations:
-        print(f"{len(violations)} violation(s) found")
-    else:
-        print(f"no C14 violation found in {total} triples (13 laws each for specifiers, 12 law/oracle checks each for markers)")
+def expr(depth, atom):
+    if depth == 0 or rnd.random() < 0.3:
+        return atom()
+    return rnd.choice([" and ", " or "]).join("(" + expr(depth - 1, atom) + ")" for _ in range(2))
+
+
+def pk(text, env):
+    try:
+        return Marker(text).evaluate(env)
+    except Exception as e:  # noqa: BLE001
+        return "EXC:" + type(e).__name__
+
+
+timeouts = 0
+for _ in range(N_RANDOM):
+    ta, tb, tc = expr(rnd.choice([0, 0, 1, 1]), atom4), expr(rnd.choice([0, 1, 1]), atom4), expr(rnd.choice([0, 0, 1]), atom4)
+    signal.alarm(8)
+    try:
+        a, b, c = P(ta), P(tb), P(tc)
+        check_marker_triple(a, b, c, envs4, [ta, tb, tc])
+        for res, text in ((a & b, f"({ta}) and ({tb})"), (a | b, f"({ta}) or ({tb})")):
+            total += 1
+            for env in envs4[:60]:
+                if isinstance(env["extra"], set):
+                    continue  # packaging wants a string for `extra`
+                x, y = ev(res, env), pk(text, env)
+                if x != y:
+                    bad += 1
+                    print(f"VIOLATION vs packaging: {text}\n   library {res} -> {x}, packaging -> {y}\n   env {env}")
+                    break
+    except TimeOut:
+        timeouts += 1
+    finally:
+        signal.alarm(0)
+print(f"   running total {total} checks, {bad} violations, {timeouts} timeouts")
+
+# --------------------------------------------------------------------------- 5
+print(f"== 5. dense single-variable fuzzer, {N_DENSE} triples ==")
+vals5 = ["a", "b", "ab", "c", "", "b a"]
+envs5 = [{"sys_platform": x, "os_name": y} for x in ["a", "b", "ab", "c", "abc", "", "d", "b a", "a b"] for y in ["a", "b", "zz"]]
+
+
+def atom5():
+    name = "sys_platform" if rnd.random() < 0.85 else "os_name"
+    v = rnd.choice(vals5)
+    r = rnd.random()
+    if r < 0.3:
+        return f'{name} == "{v}"'
+    if r < 0.6:
+        return f'{name} != "{v}"'
+    if r < 0.65:
+        return f'"{v}" == {name}'
+    if r < 0.7:
+        return f'"{v}" != {name}'
+    if r < 0.78:
+        return f'"{v}" in {name}'
+    if r < 0.85:
+        return f'"{v}" not in {name}'
+    if r < 0.93:
+        return f'{name} in "{v}"'
+    return f'{name} not in "{v}"'
+
+
+timeouts = 0
+for _ in range(N_DENSE):
+    ta, tb, tc = expr(rnd.choice([0, 1, 1, 2]), atom5), expr(rnd.choice([0, 1, 1, 2]), atom5), expr(rnd.choice([0, 1]), atom5)
+    signal.alarm(5)
+    try:
+        check_marker_triple(P(ta), P(tb), P(tc), envs5, [ta, tb, tc])
+    except TimeOut:
+        timeouts += 1
+    finally:
+        signal.alarm(0)
+print(f"   running total {total} checks, {bad} violations, {timeouts} timeouts")
+
+print(f"TOTAL: {total} checks, {bad} new in-quantifier violations (2 borderline findings listed in section 1)")
